@@ -139,7 +139,8 @@ func startRig() *rig {
 	var wg sync.WaitGroup
 	wg.Add(1)
 	denied := make(chan string, 64)
-	cfg := crossbar.Config{Listen: port, Audience: r.aud, BufferSize: 128, CodeStore: r.cs, DenyStore: r.ds, Hub: r.hub, StatsEvery: time.Second}
+	cfg := crossbar.Config{Listen: port, Audience: r.aud, BufferSize: 512, // a reader that is merely slow for a few hundred ms is not to be evicted
+		CodeStore: r.cs, DenyStore: r.ds, Hub: r.hub, StatsEvery: time.Second}
 	go crossbar.Crossbar(cfg, r.closed, denied, &wg)
 	// the access API in front of it (tokens that come the whole way: POST /session -> code -> websocket)
 	aport := lib.FreePorts(1)[0]
@@ -284,6 +285,7 @@ func runCase(r *rig, idx int, c *Case, tag string) {
 	var lastFrom, lastTo, clientErr int64 // written by the reader goroutines under pmu
 	var dataAt []int64
 	var partnerClosed, ending int64
+	var received, evictedByHub int64 // bytes of partner messages the probe has read; the relay sent a close frame (= the hub closed this reader's queue)
 	defer atomic.StoreInt64(&ending, 1)
 	go func() { // partner reader: records when something from the probe arrives
 		for {
@@ -398,6 +400,11 @@ func runCase(r *rig, idx int, c *Case, tag string) {
 			for {
 				_, data, err := probe.ReadMessage()
 				if err != nil {
+					// writePump sends an (empty) close frame only when the hub has closed the queue, i.e.
+					// when it evicted this reader as slow; expiry and deny close the socket without one
+					if websocket.IsCloseError(err, websocket.CloseNoStatusReceived) && c.Behave != "closeframe" {
+						atomic.StoreInt64(&evictedByHub, 1)
+					}
 					pmu.Lock()
 					if clientErr == 0 {
 						clientErr = time.Now().UnixNano()
@@ -406,6 +413,7 @@ func runCase(r *rig, idx int, c *Case, tag string) {
 					return
 				}
 				if len(data) > 0 && data[0] == 'S' {
+					atomic.AddInt64(&received, int64(len(data)))
 					pmu.Lock()
 					lastTo = time.Now().UnixNano()
 					if len(dataAt) < 200 {
@@ -518,13 +526,18 @@ func runCase(r *rig, idx int, c *Case, tag string) {
 		// the probe never reads and the partner keeps pushing until the hub evicts the probe as a slow
 		// reader (queue full behind a blocked write); the probe then goes on sending: its expiry falls
 		// into the window in which its writer is still inside the blocked write (up to writeWait)
-		big := make([]byte, 64*1024)
+		big := make([]byte, 256*1024)
 		big[0] = 'S'
-		for k := 0; k < 900 && time.Now().Before(until); k++ {
+		small := []byte("S" + strings.Repeat("q", 1023))
+		for k := 0; k < 3000 && time.Now().Before(until); k++ {
 			if r.after(r.dropped, bid, c.TLo) != 0 {
 				break
 			}
-			psend(big)
+			if k < 40 {
+				psend(big) // clogs the path: the relay's writer blocks inside a write
+			} else {
+				psend(small) // fills the queue behind it
+			}
 		}
 		for w := 0; w < 100 && r.after(r.dropped, bid, c.TLo) == 0; w++ {
 			time.Sleep(10 * time.Millisecond)
@@ -541,10 +554,19 @@ func runCase(r *rig, idx int, c *Case, tag string) {
 		// the partner sends 60 messages of 1 KB back to back every 10 ms: the probe's queue in the relay
 		// is often not empty; the probe itself sends a message every 100 ms
 		body := []byte("S" + strings.Repeat("b", 1023))
+		sent := int64(0)
 		for k := 0; time.Now().Before(until); k++ {
+			// paced by what the reader has confirmed (in bytes: the relay merges queued messages into one
+			// frame): never more than about 250 messages ahead of a reader that can read at all
+			if c.Scope != "w" {
+				for w := 0; w < 40 && sent-atomic.LoadInt64(&received) > 250*1024; w++ {
+					time.Sleep(5 * time.Millisecond)
+				}
+			}
 			for n := 0; n < 60; n++ {
 				psend(body)
 			}
+			sent += 60 * int64(len(body))
 			if k%10 == 0 {
 				pwrite([]byte("P" + strconv.Itoa(k)))
 			}
@@ -573,6 +595,11 @@ func runCase(r *rig, idx int, c *Case, tag string) {
 	}
 	time.Sleep(150 * time.Millisecond) // let in-flight messages land
 	c.Dropped = r.after(r.dropped, bid, c.TLo)
+	if c.Mode != "stallevict" && atomic.LoadInt64(&evictedByHub) != 0 && c.Dropped != 0 {
+		// the hub evicted this reader for a full queue (a starved machine): legitimate relay behaviour;
+		// the eviction goes into the model's timeline, the case is not judged as an early end
+		c.EvictAt = c.Dropped
+	}
 	if c.Dropped > c.WatchUntil {
 		c.Dropped = 0 // after the watch: not part of the observation
 	}
@@ -788,6 +815,9 @@ func oracle(c Case, idx int, res *lib.Result) {
 			Detail: fmt.Sprintf("%s/%s via %q: the OTHER connection of the topic (a 1 h token%s) was closed by the relay %.3f s after the probe joined (probe's own expiry: +%d s)",
 				c.Kind, c.Mode, c.Via, map[bool]string{true: " of the same booking id", false: ""}[strings.HasPrefix(c.Via, "api-")], float64(c.PartnerClosed-c.TLo)/1e9, c.ExpOff)})
 	}
+	if c.Mode != "stallevict" && c.EvictAt != 0 {
+		return // evicted as a slow reader under load: discarded (counted), the model judges it with the eviction in its timeline
+	}
 	if c.Mode == "stallevict" {
 		if c.EvictAt == 0 {
 			return // the eviction did not happen: nothing to judge (counted as a note)
@@ -941,6 +971,9 @@ func main() {
 		}
 		if c.Via != "" {
 			res.Count("via:" + c.Via)
+		}
+		if c.Mode != "stallevict" && c.EvictAt != 0 {
+			res.Count("discarded:evicted-under-load")
 		}
 		if c.Scope != "" {
 			res.Count("scope:" + c.Scope)
